@@ -108,7 +108,7 @@ def cur_factory(mode):
     return current
 
 
-@rule("R16.1", ["C16", "C09"], "T-TAB", floor=22)
+@rule("R16.1", ["C16"], "T-TAB", floor=22)
 def r16_1(ctx):
     """Per version: defaults have unique names that are real configuration / value IDs, the packet-buffer count
     is among them, every capacity default (table sizes, cache sizes, child and network counts) is marked
